@@ -162,6 +162,9 @@ func cmdCheck(args []string) int {
 		if !touches && prop == "C16" && c.GuardsOn && guardedUsers[q] {
 			touches = true
 		}
+		if len(c.Only) > 0 && !contains(c.Only, prop) {
+			touches = false
+		}
 		if !touches {
 			for _, cl := range append(append([]*Clause{}, c.Ensures...), c.Requires...) {
 				if cl.Props != nil && cl.inProp(c, prop) {
@@ -201,6 +204,38 @@ func cmdCheck(args []string) int {
 			if len(bad) > 0 {
 				o.Status = "sat"
 				o.Output = "users without a guards-on contract: " + strings.Join(bad, ", ")
+			}
+			census = append(census, o)
+		}
+	}
+	// census obligations: a helper that must be called with the store lock held (a precondition
+	// named "locked") is only called from functions that are under contract, so that the
+	// precondition is checked at every call site
+	if prop == "C08" || prop == "C16" {
+		for _, q := range eng.cf.Order {
+			c := eng.cf.Contracts[q]
+			needs := false
+			for _, r := range c.Requires {
+				if r.Name == "locked" && !r.Free && contains(r.Props, prop) {
+					needs = true
+				}
+			}
+			if !needs {
+				continue
+			}
+			cs := eng.callersOf(q)
+			var bad []string
+			for _, u := range cs {
+				// (a trusted caller is on the stated trusted list with its own precondition)
+				if cc := eng.cf.Contracts[u]; cc == nil || cc.Inline {
+					bad = append(bad, u)
+				}
+			}
+			o := &Obligation{Name: "census.callers." + q, Base: "census.callers." + q, Kind: "census", Func: "census", Clause: q, Props: []string{prop}, done: true, Solver: "syntactic census", Status: "unsat",
+				GoalText: fmt.Sprintf("every function calling %s (which requires the store lock) is under contract; callers: %s", q, strings.Join(cs, ", "))}
+			if len(bad) > 0 {
+				o.Status = "sat"
+				o.Output = "callers without contract: " + strings.Join(bad, ", ")
 			}
 			census = append(census, o)
 		}
@@ -512,7 +547,11 @@ func cmdCheck(args []string) int {
 				violations++
 				violLines = append(violLines, fmt.Sprintf("VIOLATION property=%s replay=%s obligation=%s (not in baseline lock) counterexample confirmed on the real code%s", prop, rp.Path, shown.Name, suffix))
 			} else {
-				undecided = append(undecided, fmt.Sprintf("%s: %s (not in baseline lock)%s", shown.Name, shown.Status, suffix))
+				extra := ""
+				if shown.Kind == "census" && shown.Output != "" {
+					extra = " [" + shown.Output + "]"
+				}
+				undecided = append(undecided, fmt.Sprintf("%s: %s (not in baseline lock)%s%s", shown.Name, shown.Status, suffix, extra))
 			}
 			continue
 		}
